@@ -74,6 +74,8 @@ def uni_composes(a, b):
         return a in (60, 61, 62)
     if b == 12442:
         return a == 12495
+    if a == 2503:
+        return b in (2494, 2519)
     return False
 
 
